@@ -40,7 +40,7 @@ Idx1Cases(nc) ==
   <<<<"slice", <<Some(1), None, None>>>>, <<"slice", <<None, Some(-1), None>>>>,
     <<"slice", <<None, None, Some(2)>>>>, <<"slice", <<Some(0), Some(2), None>>>>,
     <<"mask", AltMask(nc)>>, <<"mask", AltMask(nc + 1)>>,
-    <<"arr", IF nc >= 2 THEN <<0, nc - 1>> ELSE <<>>>>, <<"arr", <<nc>>>>, <<"arr", <<-1>>>>, <<"all", <<>>>>>>
+    <<"arr", IF nc >= 2 THEN <<0, nc - 1>> ELSE <<>>>>, <<"arr", <<nc>>>>, <<"arr", <<-1>>>>, <<"all", <<>>>>, <<"int", <<0>>>>>>
 Idx2Cases(nc, nr) ==
   <<<<<<"all", <<>>>>, <<"slice", <<Some(0), Some(1), None>>>>>>,
     <<<<"slice", <<Some(1), None, None>>>>, <<"arr", <<1, 0>>>>>>,
